@@ -757,7 +757,9 @@ Section Seq.
   Definition sorted_by_ltb (l : list E) : Prop := StronglySorted (fun x y => ltb y x = false) l.
   Definition spec_ok (c : kind) (l : list E) (o : sop) (l' : list E) (r : out) : Prop :=
     match o with
-    | SSort => r = OUnit /\ Permutation l l' /\ sorted_by_ltb l'
+    | SSort =>
+      if in_range c l o then r = OUnit /\ Permutation l l' /\ sorted_by_ltb l'
+      else spec_step c l o = (l', r)
     | _ => spec_step c l o = (l', r)
     end.
 
@@ -803,6 +805,17 @@ Section Seq.
         inv (fst (step s o)) /\
         spec_ok c (abs s) o (abs (fst (step s o))) (snd (step s o)) /\
         refines (fst (step s o)) r
+      end.
+    (* the same along EVERY history: an operation outside the contract is covered by spec_ok too
+       (spec_step then demands the documented exception and an unchanged sequence) *)
+    Fixpoint refines_all (s : St) (ops : list sop) : Prop :=
+      match ops with
+      | [] => True
+      | o :: r =>
+        extra (abs s) o ->
+        inv (fst (step s o)) /\
+        spec_ok c (abs s) o (abs (fst (step s o))) (snd (step s o)) /\
+        refines_all (fst (step s o)) r
       end.
   End Refines.
 End Seq.
